@@ -115,6 +115,124 @@ theorem C15_stopped_run_labels (upd : S → ℕ → K → K × S × R) (flt : Fa
   have := stage_labels upd flt hsave stage k T fuel 0 0 s0 [] [] 0 (by simp)
   rcases h with h | h <;> rw [h] at this <;> exact this
 
+/-! ### the per-step records of a stopped run ("with their bookkeeping intact") -/
+
+omit [Add K] [LE K] [DecidableLE K] [OfNat K 0] in
+private theorem allRecs_snoc' (fr : List (Frame K S R)) (f : Frame K S R) :
+    allRecs (fr ++ [f]) = allRecs fr ++ f.recs.getD [] := by
+  simp [allRecs]
+
+omit [Add K] [LE K] [DecidableLE K] [OfNat K 0] in
+private theorem mkFrame_recs' (i : ℕ) (t : K) (s : S) (buf : List R) :
+    (mkFrame i t s buf).recs.getD [] = if i = 0 then [] else buf := by
+  unfold mkFrame; split <;> simp
+
+private def RecsOK (upd : S → ℕ → K → K × S × R) (s0 : S) : StageOutcome K S R → Prop
+  | .finished e _ => allRecs e.frames = (List.range e.steps).map (recAt upd s0)
+  | .cancelled e _ => allRecs e.frames = (List.range e.steps).map (recAt upd s0)
+  | _ => True
+
+private theorem finalSave_recs (upd : S → ℕ → K → K × S × R) (s0 : S) (flt : Faults) (hsave : ∀ j, flt.save j = none)
+    (k i : ℕ) (t : K) (s : S) (buf : List R) (fr : List (Frame K S R)) (saves : ℕ) (c : Bool)
+    (hgrid : i % k = 0 → buf = [])
+    (hrec : allRecs fr ++ buf = (List.range i).map (recAt upd s0)) :
+    RecsOK upd s0 (finalSave flt true k i t s buf fr saves c) := by
+  unfold finalSave trySave
+  rw [hsave]
+  by_cases hg : i % k = 0
+  · have : ¬ (true = true ∧ i % k ≠ 0) := by simp [hg]
+    rw [if_neg this]
+    have hb := hgrid hg
+    rw [hb, List.append_nil] at hrec
+    cases c <;> simp [RecsOK, hrec]
+  · have : (true = true ∧ i % k ≠ 0) := ⟨rfl, hg⟩
+    rw [if_pos this]
+    have hi : i ≠ 0 := by
+      intro h0
+      apply hg
+      rw [h0]
+      exact Nat.zero_mod k
+    have : allRecs (fr ++ [mkFrame i t s buf]) = (List.range i).map (recAt upd s0) := by
+      rw [allRecs_snoc', mkFrame_recs', if_neg hi, hrec]
+    cases c <;> simp [RecsOK, this]
+
+private theorem stage_recs (upd : S → ℕ → K → K × S × R) (s0 : S) (flt : Faults) (hsave : ∀ j, flt.save j = none)
+    (stage k : ℕ) (T : K) :
+    ∀ (fuel i : ℕ) (t : K) (s : S) (buf : List R) (fr : List (Frame K S R)) (saves : ℕ),
+      t = (traj upd s0 i).1 → s = (traj upd s0 i).2 →
+      allRecs fr ++ buf = (List.range i).map (recAt upd s0) →
+      RecsOK upd s0 (runStageF upd flt stage true k T fuel i t s buf fr saves) := by
+  intro fuel
+  induction fuel with
+  | zero => intro i t s buf fr saves _ _ _; simp [runStageF, RecsOK]
+  | succ fuel ih =>
+    intro i t s buf fr saves ht hs hrec
+    have hnext : ∀ (fr' : List (Frame K S R)) (buf' : List R),
+        allRecs fr' ++ buf' = (List.range i).map (recAt upd s0) →
+        allRecs fr' ++ (buf' ++ [(upd s i t).2.2]) = (List.range (i+1)).map (recAt upd s0) := by
+      intro fr' buf' h
+      rw [← List.append_assoc, h, List.range_succ, List.map_append]
+      simp only [List.map_cons, List.map_nil, recAt]
+      rw [← ht, ← hs]
+    have htraj1 : t + (upd s i t).1 = (traj upd s0 (i+1)).1 := by
+      show _ = (let p := traj upd s0 i; let r := upd p.2 i p.1; (p.1 + r.1, r.2.1)).1
+      simp only
+      rw [← ht, ← hs]
+    have htraj2 : (upd s i t).2.1 = (traj upd s0 (i+1)).2 := by
+      show _ = (let p := traj upd s0 i; let r := upd p.2 i p.1; (p.1 + r.1, r.2.1)).2
+      simp only
+      rw [← ht, ← hs]
+    unfold runStageF
+    simp only
+    by_cases hg : i % k = 0
+    · have hc : (i % k = 0 ∧ True) := ⟨hg, trivial⟩
+      rw [if_pos hc]
+      unfold trySave
+      rw [hsave]
+      simp only [if_pos hg]
+      have hrec' : allRecs (fr ++ [mkFrame i t s buf]) ++ [] = (List.range i).map (recAt upd s0) := by
+        rw [List.append_nil, allRecs_snoc', mkFrame_recs']
+        by_cases hi : i = 0
+        · rw [if_pos hi]
+          subst hi
+          simp only [List.range_zero, List.map_nil, List.append_eq_nil_iff] at hrec
+          simp [hrec.1]
+        · rw [if_neg hi, hrec]
+      by_cases hT : T ≤ t
+      · rw [if_pos hT]
+        exact finalSave_recs upd s0 flt hsave k i t s [] _ _ false (fun _ => rfl) hrec'
+      · rw [if_neg hT]
+        cases hu : flt.upd stage i with
+        | none => exact ih (i+1) _ _ _ _ _ htraj1 htraj2 (hnext _ _ hrec')
+        | some f =>
+          cases f with
+          | error => simp [RecsOK]
+          | interrupt => exact finalSave_recs upd s0 flt hsave k i t s [] _ _ true (fun _ => rfl) hrec'
+    · have hc : ¬ (i % k = 0 ∧ True) := by simp [hg]
+      rw [if_neg hc]
+      simp only [if_neg hg]
+      by_cases hT : T ≤ t
+      · rw [if_pos hT]
+        exact finalSave_recs upd s0 flt hsave k i t s buf _ _ false (fun h => absurd h hg) hrec
+      · rw [if_neg hT]
+        cases hu : flt.upd stage i with
+        | none => exact ih (i+1) _ _ _ _ _ htraj1 htraj2 (hnext _ _ hrec)
+        | some f =>
+          cases f with
+          | error => simp [RecsOK]
+          | interrupt => exact finalSave_recs upd s0 flt hsave k i t s buf _ _ true (fun h => absurd h hg) hrec
+
+/-- **Bookkeeping of a stopped run.**  With faults in the updates only, the per-step records read back from the frames of a
+    stage cancelled (or finished) at step `M` are exactly one record per step `0 … M − 1`, in order: nothing of the steps taken
+    before the stop is lost, nothing is recorded twice. -/
+theorem C15_stopped_run_records (upd : S → ℕ → K → K × S × R) (flt : Faults) (hsave : ∀ j, flt.save j = none)
+    (stage k : ℕ) (T : K) (fuel : ℕ) (s0 : S) (e : StageEnd K S R) (saves : ℕ)
+    (h : runStageF upd flt stage true k T fuel 0 0 s0 [] [] 0 = .cancelled e saves ∨
+         runStageF upd flt stage true k T fuel 0 0 s0 [] [] 0 = .finished e saves) :
+    allRecs e.frames = (List.range e.steps).map (recAt upd s0) := by
+  have := stage_recs upd s0 flt hsave stage k T fuel 0 0 s0 [] [] 0 rfl rfl (by simp [allRecs])
+  rcases h with h | h <;> rw [h] at this <;> exact this
+
 variable [LT K] [DecidableLT K]
 
 /-- **The partial solution's times are its frames' times.**  For a stage cancelled (or finished) at step `M` with faults in the
